@@ -23,6 +23,28 @@ def main(argv=None):
     from vf import core
 
     pid = args.pid.upper()
+    # overall wall-clock guard: a hung worker must not hang the check. Hitting it is "inconclusive" (exit 2), never a
+    # violation. Own process group so that forked workers die with us.
+    import signal
+    import threading
+
+    try:
+        os.setpgrp()
+    except OSError:
+        pass
+    limit = float(os.environ.get("VERIF_MAX_WALL", "900" if args.tier == "quick" else "7200"))
+
+    def _expired():
+        sys.stdout.write("HARNESS-ERROR property=%s (wall-clock guard of %.0f s expired; inconclusive)\n" % (pid, limit))
+        sys.stdout.flush()
+        try:
+            os.killpg(0, signal.SIGKILL)
+        finally:
+            os._exit(2)
+
+    guard = threading.Timer(limit, _expired)
+    guard.daemon = True
+    guard.start()
     try:
         seed = int(os.environ.get("VERIF_SEED", "1") or "1")
     except ValueError:
